@@ -504,6 +504,14 @@ var brokenUser = []struct{ name, src string }{
 	{"method-value-arg", "package p\n\ntype T struct{}\n\nfunc (T) M() {}\n\nfunc u() { deriveEqualX(T{}.M, T{}.M) }\n"},
 	{"nil-arg", "package p\n\nfunc u() { deriveEqualX(nil, nil) }\n"},
 	{"untyped-const-args", "package p\n\nfunc u() { deriveCompareX(1.5, 2) }\n"},
+	// legal Go that no generated file can serve: a type declared inside a function cannot be named at package level,
+	// and an external test package has no generated file of its own (derived.gen.go belongs to the package under test)
+	{"legal:local-type-arg", "package p\n\nfunc u() bool {\n\ttype T struct{ A []int }\n\treturn deriveEqualX(&T{}, &T{})\n}\n"},
+	{"legal:local-type-elem", "package p\n\nfunc u() {\n\ttype T struct{ A int }\n\tderiveSortX([]T{})\n}\n"},
+	{"legal:local-type-map", "package p\n\nfunc u() []string {\n\ttype T map[string]int\n\treturn deriveKeysX(T{})\n}\n"},
+	{"legal:local-type-func", "package p\n\nfunc u() []int {\n\ttype T struct{ A int }\n\treturn deriveFmapX(func(t T) int { return t.A }, []T{})\n}\n"},
+	{"legal:local-type-targ", "package p\n\ntype G[X any] struct{ V X }\n\nfunc u() bool {\n\ttype T struct{ A int }\n\treturn deriveEqualX(G[T]{}, G[T]{})\n}\n"},
+	{"legal:xtest-derive-call", "package p_test\n\nimport \"testing\"\n\ntype T struct{ A []int }\n\nfunc TestX(t *testing.T) {\n\tif !deriveEqualX(&T{}, &T{}) {\n\t\tt.Fatal()\n\t}\n}\n"},
 	{"generic-type", "package p\n\ntype G[T any] struct{ V T }\n\nfunc u(a G[int]) { deriveEqualX(a, a) }\n"},
 	{"generic-func", "package p\n\nfunc u[T any](a T) { deriveEqualX(a, a) }\n"},
 	{"type-alias", "package p\n\ntype A = []int\n\nfunc u(a A) { deriveEqualX(a, a) }\n"},
@@ -552,9 +560,9 @@ func drawFault(t *rapid.T, n int) *faultCase {
 	default:
 		b := brokenUser[rapid.IntRange(0, len(brokenUser)-1).Draw(t, "broken")]
 		p.Add("func ok(a, b []int) bool {\n\treturn deriveEqualOK(a, b)\n}\n")
-		p.Extra["p/broken.go"] = b.src
+		p.Extra[brokenFile(b.src)] = b.src
 		fc.plugin, fc.fault, fc.position = "any", "user:"+b.name, "file"
-		fc.userBroken = true
+		fc.userBroken = !strings.HasPrefix(b.name, "legal:")
 		fc.desc = b.name
 	}
 	// some healthy neighbours, so that the fault sits in a package that otherwise generates
@@ -569,6 +577,14 @@ func drawFault(t *rapid.T, n int) *faultCase {
 	}
 	fc.files = p.Files()
 	return fc
+}
+
+// brokenFile names the file a catalogue source goes to: an external test package lives in a _test.go file.
+func brokenFile(src string) string {
+	if strings.HasPrefix(src, "package p_test") {
+		return "p/broken_test.go"
+	}
+	return "p/broken.go"
 }
 
 func goMapKeyable(t *progen.Type) bool { return t.GoComparable() }
@@ -749,8 +765,8 @@ func sweep(c *pkit.Ctx) {
 	for _, b := range brokenUser {
 		p, _ := base()
 		p.Add("func ok(a, b []int) bool {\n\treturn deriveEqualOK(a, b)\n}\n")
-		p.Extra["p/broken.go"] = b.src
-		run(&faultCase{plugin: "any", fault: "user:" + b.name, position: "file", userBroken: true, desc: b.name}, p.Files())
+		p.Extra[brokenFile(b.src)] = b.src
+		run(&faultCase{plugin: "any", fault: "user:" + b.name, position: "file", userBroken: !strings.HasPrefix(b.name, "legal:"), desc: b.name}, p.Files())
 	}
 	c.Rep.AddExtra("sweep_size", int64(idx))
 }
@@ -803,7 +819,7 @@ func TestReplay(t *testing.T) {
 	gorun.WriteFiles(cd, files)
 	sigm, _ := meta["signature"].(map[string]any)
 	fc := &faultCase{plugin: fmt.Sprint(sigm["plugin"]), fault: fmt.Sprint(sigm["fault"]), position: fmt.Sprint(sigm["position"]), desc: fmt.Sprint(meta["desc"])}
-	fc.userBroken = strings.HasPrefix(fc.fault, "user:")
+	fc.userBroken = strings.HasPrefix(fc.fault, "user:") && !strings.HasPrefix(fc.fault, "user:legal:")
 	if sig, msg := judge(cd, fc); sig != nil {
 		t.Fatalf("still fails: %v\n%s", sig, msg)
 	}
